@@ -49,10 +49,11 @@ theorem encryptSk_phase (hbits : bits = 64 ∨ bits = 128) (hr : HeadRoom bits b
     (masks : List Col) (sk : List Poly) (m : Option Col) (e : Poly)
     (hlen : masks.length = sk.length) (hmasks : ∀ a ∈ masks, a.length = size ∧ WF n a)
     (hprod : ProdBounded H masks sk)
+    (ptB : Nat) (hradix : m.isSome → ptB = b)
     (hm : ∀ p, m = some p → WF n p ∧ CoefBounded n M p) (hM0 : 0 ≤ M)
     (he : e.length = n) (hE0 : 0 ≤ E) (heB : ∀ x ∈ e, |x| ≤ E)
     (hsum : (masks.length : Int) * 2 ^ (b - 1) + E + M ≤ 2 ^ 62) :
-    ∃ body, Core.glweEncryptSk bits b k n size kxe masks m sk e = some { base2k := b, k := k, n := n, cols := body :: masks } ∧
+    ∃ body, Core.glweEncryptSk bits b k n size kxe masks m ptB sk e = some { base2k := b, k := k, n := n, cols := body :: masks } ∧
       body.length = size ∧ WF n body ∧ Bounded (2 ^ (b - 1)) body ∧
       ∀ t, t < n → ∃ K : Int, Core.valCoeff b (Core.phaseBig sk { base2k := b, k := k, n := n, cols := body :: masks }) t =
         msgCoeff b n size m t + e.getD t 0 * 2 ^ (b * (size - 1 - errLimb kxe b)) + K * 2 ^ (b * size) := by
@@ -76,7 +77,13 @@ theorem encryptSk_phase (hbits : bits = 64 ∨ bits = 128) (hr : HeadRoom bits b
   refine ⟨body, ?_, l1, w1, b1, ?_⟩
   · unfold Core.glweEncryptSk Core.encryptSkBody
     rw [if_neg (by simp [hlen])]
-    simp [e0, e1]
+    have hok : Core.ptRadixOk m ptB b = true := by
+      unfold Core.ptRadixOk
+      by_cases h : m.isSome
+      · simp [hradix h]
+      · simp only [Bool.not_eq_true, Option.isSome_eq_false_iff] at h
+        simp [h]
+    simp [hok, e0, e1]
   · intro t ht
     obtain ⟨K0, hK0⟩ := v0 t ht
     obtain ⟨K1, hK1⟩ := v1 t ht
